@@ -45,11 +45,12 @@
 (*        says a proof was requested.  Repair (fixes/C11-1): demand it     *)
 (*        whenever the context requested one.                              *)
 (*   "LockTrustsSlate"      lock_tx_context copies the requested recipient *)
-(*        from whatever slate it is handed; a sender that locks with the   *)
-(*        reply (allowed: tx_lock_outputs only has to precede finalize_tx) *)
-(*        compares the reply with itself.  The repaired model remembers    *)
-(*        the request in the context (no small repair: the stored context  *)
-(*        has no such field).                                              *)
+(*        from whatever slate it is handed and the context does not        *)
+(*        remember it; a sender that locks with the reply (allowed:        *)
+(*        tx_lock_outputs only has to precede finalize_tx) compares the    *)
+(*        reply with itself.  Repair (fixes/C11-2): the context remembers  *)
+(*        the requested address (new optional field) and                   *)
+(*        verify_slate_payment_proof compares the reply with it as well.   *)
 (* Named under-modelling: the coin selection is reduced to the shapes the  *)
 (* cases use (Sel below; the algorithm itself is the business of C01), a   *)
 (* funded account holds two coinbases of Reward each.                      *)
@@ -146,15 +147,10 @@ DoInit(ms) ==
 
 \* ------------------------------------------------------------------- Lock
 \* selection::lock_tx_context with slate proof part sp and kernel name kern: new TxSent entry
-\* of ctx.acct.  Code: proof info stored iff the SLATE has one, recipient copied from the SLATE.
-\* Repaired ("LockTrustsSlate" off): stored iff a proof was requested, recipient from the context.
+\* of ctx.acct; proof info stored iff the SLATE has one, recipient copied from the SLATE.
 LockEntry(cx, sel, sp, kern) ==
-  LET fromSlate == "LockTrustsSlate" \in Dev
-      want == IF fromSlate THEN sp.has ELSE cx.pidx >= 0
-      ra == IF fromSlate THEN sp.ra ELSE cx.req
-      rs == IF sp.has THEN sp.rs ELSE NoSig
-  IN [ex |-> TRUE, acct |-> cx.acct, db |-> sel.nin * Reward, cr |-> sel.chg, fee |-> cx.fee, kern |-> kern,
-      proof |-> IF want THEN Stored(ra, rs, Addr(SenderW, cx.acct), NoSig) ELSE NoStored]
+  [ex |-> TRUE, acct |-> cx.acct, db |-> sel.nin * Reward, cr |-> sel.chg, fee |-> cx.fee, kern |-> kern,
+   proof |-> IF sp.has THEN Stored(sp.ra, sp.rs, Addr(SenderW, cx.acct), NoSig) ELSE NoStored]
 
 ObsEnt(e) == [ex |-> e.ex, acct |-> e.acct, kern |-> e.kern, proof |-> e.proof, db |-> e.db, cr |-> e.cr, fee |-> e.fee]
 
@@ -218,6 +214,7 @@ VerifySlateProof(e, active, cx, p) ==
      ELSE IF cx.pidx < 0 THEN "err:proof"
      ELSE IF p.sa # mine THEN "err:proof"                            \* sender address differs from derived
      ELSE IF orig.ra # p.ra THEN "err:proof"                         \* recipient address differs from stored
+     ELSE IF "LockTrustsSlate" \notin Dev /\ p.ra # cx.req THEN "err:proof"   \* ... from requested (fixes/C11-2)
      ELSE IF ~Present(p.rs) THEN "err:proof"                         \* no signature
      ELSE IF p.rs # PSig(p.ra, cx.amt, "final", mine) THEN "err:proof"   \* invalid signature
      ELSE "ok"
